@@ -1,7 +1,20 @@
 // ---------------------------------------------------------------- specification
 pub type Cls = spec_fn(CharClassID, char) -> bool;
 
-pub open spec fn wf_flat(d: CompiledDfa) -> bool {
+/// the part of a compiled automaton that matching depends on (everything but the scratch buffers)
+pub struct DfaCore {
+    pub patterns: Vec<String>,
+    pub terminal_ids: Vec<TerminalID>,
+    pub states: Vec<StateData>,
+    pub end_states: Vec<(bool, TerminalID)>,
+    pub lookaheads: FxHashMap<TerminalID, CompiledLookahead>,
+}
+
+pub open spec fn core(d: CompiledDfa) -> DfaCore {
+    DfaCore { patterns: d.patterns, terminal_ids: d.terminal_ids, states: d.states, end_states: d.end_states, lookaheads: d.lookaheads }
+}
+
+pub open spec fn wf_flat(d: DfaCore) -> bool {
     &&& d.states@.len() == d.end_states@.len()
     &&& d.states@.len() >= 1
     &&& d.states@.len() <= u32::MAX
@@ -10,61 +23,61 @@ pub open spec fn wf_flat(d: CompiledDfa) -> bool {
     &&& forall|s: int| 0 <= s < d.end_states@.len() && (#[trigger] d.end_states@[s]).0 ==> d.terminal_ids@.contains(d.end_states@[s].1)
 }
 
-pub open spec fn wf(d: CompiledDfa) -> bool {
+pub open spec fn wf(d: DfaCore) -> bool {
     &&& wf_flat(d)
-    &&& forall|t: TerminalID| #[trigger] d.lookaheads@.contains_key(t) ==> wf_flat(*d.lookaheads@[t].nfa) && d.lookaheads@[t].nfa.lookaheads@.len() == 0
+    &&& forall|t: TerminalID| #[trigger] d.lookaheads@.contains_key(t) ==> wf_flat(core(*d.lookaheads@[t].nfa)) && d.lookaheads@[t].nfa.lookaheads@.len() == 0
 }
 
-pub open spec fn trans(d: CompiledDfa, s: int) -> Seq<(CharClassID, StateSetID)> { d.states@[s].transitions@ }
+pub open spec fn trans(d: DfaCore, s: int) -> Seq<(CharClassID, StateSetID)> { d.states@[s].transitions@ }
 
-pub open spec fn fires(d: CompiledDfa, cls: Cls, s: int, i: int, c: char) -> bool {
+pub open spec fn fires(d: DfaCore, cls: Cls, s: int, i: int, c: char) -> bool {
     0 <= i < trans(d, s).len() && cls(trans(d, s)[i].0, c)
 }
 
-pub open spec fn step1(d: CompiledDfa, cls: Cls, s: int, c: char, t: int) -> bool {
+pub open spec fn step1(d: DfaCore, cls: Cls, s: int, c: char, t: int) -> bool {
     exists|i: int| #[trigger] fires(d, cls, s, i, c) && trans(d, s)[i].1.0 == t
 }
 
-pub open spec fn reach(d: CompiledDfa, cls: Cls, w: Seq<char>, t: int) -> bool
+pub open spec fn reach(d: DfaCore, cls: Cls, w: Seq<char>, t: int) -> bool
     decreases w.len()
 {
     if w.len() == 0 { t == 0 }
     else { exists|s: int| 0 <= s < d.states@.len() && reach(d, cls, w.drop_last(), s) && #[trigger] step1(d, cls, s, w.last(), t) }
 }
 
-pub open spec fn acc(d: CompiledDfa, cls: Cls, w: Seq<char>, tid: TerminalID) -> bool {
+pub open spec fn acc(d: DfaCore, cls: Cls, w: Seq<char>, tid: TerminalID) -> bool {
     exists|t: int| 0 <= t < d.states@.len() && #[trigger] reach(d, cls, w, t) && d.end_states@[t] == (true, tid)
 }
 
-pub open spec fn has_match(d: CompiledDfa, cls: Cls, rest: Seq<char>) -> bool {
+pub open spec fn has_match(d: DfaCore, cls: Cls, rest: Seq<char>) -> bool {
     exists|l: int, tid: TerminalID| 1 <= l <= rest.len() && #[trigger] acc(d, cls, rest.take(l), tid)
 }
 
-pub open spec fn is_longest(d: CompiledDfa, cls: Cls, rest: Seq<char>, l: int) -> bool {
+pub open spec fn is_longest(d: DfaCore, cls: Cls, rest: Seq<char>, l: int) -> bool {
     &&& 1 <= l <= rest.len()
     &&& exists|tid: TerminalID| #[trigger] acc(d, cls, rest.take(l), tid)
     &&& forall|l2: int, tid2: TerminalID| l < l2 <= rest.len() ==> !#[trigger] acc(d, cls, rest.take(l2), tid2)
 }
 
-pub open spec fn longest(d: CompiledDfa, cls: Cls, rest: Seq<char>) -> int {
+pub open spec fn longest(d: DfaCore, cls: Cls, rest: Seq<char>) -> int {
     choose|l: int| is_longest(d, cls, rest, l)
 }
 
-pub open spec fn la_ok(d: CompiledDfa, cls: Cls, tid: TerminalID, rest: Seq<char>) -> bool {
-    d.lookaheads@.contains_key(tid) ==> (d.lookaheads@[tid].is_positive == has_match(*d.lookaheads@[tid].nfa, cls, rest))
+pub open spec fn la_ok(d: DfaCore, cls: Cls, tid: TerminalID, rest: Seq<char>) -> bool {
+    d.lookaheads@.contains_key(tid) ==> (d.lookaheads@[tid].is_positive == has_match(core(*d.lookaheads@[tid].nfa), cls, rest))
 }
 
-pub open spec fn la_len(d: CompiledDfa, cls: Cls, tid: TerminalID, rest: Seq<char>) -> nat {
-    if d.lookaheads@.contains_key(tid) && d.lookaheads@[tid].is_positive && has_match(*d.lookaheads@[tid].nfa, cls, rest) {
-        blen(rest.take(longest(*d.lookaheads@[tid].nfa, cls, rest)))
+pub open spec fn la_len(d: DfaCore, cls: Cls, tid: TerminalID, rest: Seq<char>) -> nat {
+    if d.lookaheads@.contains_key(tid) && d.lookaheads@[tid].is_positive && has_match(core(*d.lookaheads@[tid].nfa), cls, rest) {
+        blen(rest.take(longest(core(*d.lookaheads@[tid].nfa), cls, rest)))
     } else { 0 }
 }
 
-pub open spec fn cand(d: CompiledDfa, cls: Cls, text: Seq<char>, l: int, tid: TerminalID) -> bool {
+pub open spec fn cand(d: DfaCore, cls: Cls, text: Seq<char>, l: int, tid: TerminalID) -> bool {
     1 <= l <= text.len() && acc(d, cls, text.take(l), tid) && la_ok(d, cls, tid, text.skip(l))
 }
 
-pub open spec fn extent(d: CompiledDfa, cls: Cls, text: Seq<char>, l: int, tid: TerminalID) -> nat {
+pub open spec fn extent(d: DfaCore, cls: Cls, text: Seq<char>, l: int, tid: TerminalID) -> nat {
     blen(text.take(l)) + la_len(d, cls, tid, text.skip(l))
 }
 
@@ -72,12 +85,12 @@ pub open spec fn is_prio(ids: Seq<TerminalID>, tid: TerminalID, r: int) -> bool 
     0 <= r < ids.len() && ids[r] == tid && forall|j: int| 0 <= j < r ==> ids[j] != tid
 }
 
-pub open spec fn prio(d: CompiledDfa, tid: TerminalID) -> int {
+pub open spec fn prio(d: DfaCore, tid: TerminalID) -> int {
     choose|r: int| is_prio(d.terminal_ids@, tid, r)
 }
 
 /// (l, tid) is at least as good as (l2, tid2): larger extent, or equal extent and not lower priority
-pub open spec fn no_better(d: CompiledDfa, cls: Cls, text: Seq<char>, l: int, tid: TerminalID, l2: int, tid2: TerminalID) -> bool {
+pub open spec fn no_better(d: DfaCore, cls: Cls, text: Seq<char>, l: int, tid: TerminalID, l2: int, tid2: TerminalID) -> bool {
     extent(d, cls, text, l2, tid2) < extent(d, cls, text, l, tid)
     || (extent(d, cls, text, l2, tid2) == extent(d, cls, text, l, tid) && prio(d, tid2) >= prio(d, tid))
 }
@@ -85,11 +98,11 @@ pub open spec fn no_better(d: CompiledDfa, cls: Cls, text: Seq<char>, l: int, ti
 pub open spec fn before(j2: int, i2: int, j: int, i: int) -> bool { j2 < j || (j2 == j && i2 < i) }
 
 #[verifier::opaque]
-pub open spec fn fired_to(d: CompiledDfa, cls: Cls, cur: Seq<StateSetID>, c: char, j: int, i: int, t: int) -> bool {
+pub open spec fn fired_to(d: DfaCore, cls: Cls, cur: Seq<StateSetID>, c: char, j: int, i: int, t: int) -> bool {
     exists|j2: int, i2: int| 0 <= j2 < cur.len() && before(j2, i2, j, i) && #[trigger] fires(d, cls, cur[j2].0 as int, i2, c) && trans(d, cur[j2].0 as int)[i2].1.0 == t
 }
 
-pub open spec fn best_in_at(d: CompiledDfa, cls: Cls, text: Seq<char>, base: nat, k: int, cur: Seq<StateSetID>, c: char, j: int, i: int,
+pub open spec fn best_in_at(d: DfaCore, cls: Cls, text: Seq<char>, base: nat, k: int, cur: Seq<StateSetID>, c: char, j: int, i: int,
     l: int, tid: TerminalID, m_end: Option<usize>, m_ext: Option<usize>) -> bool
 {
     &&& 1 <= l <= k + 1
@@ -102,7 +115,7 @@ pub open spec fn best_in_at(d: CompiledDfa, cls: Cls, text: Seq<char>, base: nat
 }
 
 #[verifier::opaque]
-pub open spec fn best_inner(d: CompiledDfa, cls: Cls, text: Seq<char>, base: nat, k: int, cur: Seq<StateSetID>, c: char, j: int, i: int,
+pub open spec fn best_inner(d: DfaCore, cls: Cls, text: Seq<char>, base: nat, k: int, cur: Seq<StateSetID>, c: char, j: int, i: int,
     m_end: Option<usize>, m_ext: Option<usize>, m_tid: Option<TerminalID>) -> bool
 {
     match m_tid {
@@ -113,7 +126,7 @@ pub open spec fn best_inner(d: CompiledDfa, cls: Cls, text: Seq<char>, base: nat
     }
 }
 
-pub open spec fn best_out_at(d: CompiledDfa, cls: Cls, text: Seq<char>, base: nat, k: int,
+pub open spec fn best_out_at(d: DfaCore, cls: Cls, text: Seq<char>, base: nat, k: int,
     l: int, tid: TerminalID, m_end: Option<usize>, m_ext: Option<usize>) -> bool
 {
     &&& 1 <= l <= k
@@ -124,7 +137,7 @@ pub open spec fn best_out_at(d: CompiledDfa, cls: Cls, text: Seq<char>, base: na
 }
 
 #[verifier::opaque]
-pub open spec fn best_outer(d: CompiledDfa, cls: Cls, text: Seq<char>, base: nat, k: int,
+pub open spec fn best_outer(d: DfaCore, cls: Cls, text: Seq<char>, base: nat, k: int,
     m_end: Option<usize>, m_ext: Option<usize>, m_tid: Option<TerminalID>) -> bool
 {
     match m_tid {
@@ -149,7 +162,7 @@ pub open spec fn ci_at(rem: Seq<(usize, char)>, input: Seq<char>, n: int) -> boo
 }
 
 /// result contract of find_from
-pub open spec fn find_post(d: CompiledDfa, cls: Cls, text: Seq<char>, base: nat, res: Option<Match>) -> bool {
+pub open spec fn find_post(d: DfaCore, cls: Cls, text: Seq<char>, base: nat, res: Option<Match>) -> bool {
     match res {
         None => forall|l: int, tid: TerminalID| !#[trigger] cand(d, cls, text, l, tid),
         Some(m) => m.token_type <= u32::MAX && m.span.start == base && exists|l: int|
